@@ -1319,6 +1319,33 @@ int main(int argc, char** argv) {
                                     ((dq.head<3>() - de.head<3>()).norm() > 0.25f * gtol0 && !near_feature)) pt_stable = false;
                             }
                         }
+                        // what the oracle tree reports within two ulps of p: an exact tie A == B of the plain tree can miss by an
+                        // ulp on the oracle path (another association of the same sum), in which case the oracle tree has its
+                        // crease right beside p and reports the other branch there
+                        std::list<Eigen::Vector3f> fo_near(fo.begin(), fo.end());
+                        bool ao_near = ao;
+                        auto probe_ulps = [&]() {
+                            static bool done_for_point; done_for_point = false; (void)done_for_point;
+                            for (int a = 0; a < 3; ++a) for (int st : {1, 2, -1, -2}) {
+                                Eigen::Vector3f pq = p;
+                                for (int k2 = 0; k2 < std::abs(st); ++k2) pq(a) = std::nextafterf(pq(a), st > 0 ? INFINITY : -INFINITY);
+                                for (auto& f2 : eo.features(pq)) fo_near.push_back(f2);
+                                eo.set(pq, 0); eo.values(1);
+                                if (eo.getAmbiguous(1)(0)) ao_near = true;
+                            }
+                            for (int m = 0; m < 8; ++m) {
+                                Eigen::Vector3f pq = p;
+                                for (int a = 0; a < 3; ++a) pq(a) = std::nextafterf(pq(a), ((m >> a) & 1) ? INFINITY : -INFINITY);
+                                for (auto& f2 : eo.features(pq)) fo_near.push_back(f2);
+                            }
+                            eo.set(p, 0); eo.values(1);
+                        };
+                        if ((ae && !ao) || fo.size() < fe.size()) {
+                            probe_ulps();
+                            bool two = false;
+                            for (auto& f2 : fo_near) if ((f2 - fo_near.front()).norm() > 1e-3f) two = true;
+                            if (two) ao_near = true;
+                        }
                         if (!ao && !ae) {
                             if (d0.array().isFinite().all() && de.array().isFinite().all() && d0.head<3>().norm() < 1e3f) {
                                 // conditioning: a gradient that moves by a sizeable part of the tolerance when the point
@@ -1330,7 +1357,7 @@ int main(int argc, char** argv) {
                                 if ((d0.head<3>() - de.head<3>()).norm() > gtol) { ++gbad; note("gradient", p); }
                             }
                         } else {
-                            if (ae && !ao && fe.size() > 1) {
+                            if (ae && !ao_near && fe.size() > 1) {
                                 // the plain tree has several distinct gradients here; the oracle tree must know
                                 bool distinct = false;
                                 for (auto& f : fe) if ((f - fe.front()).norm() > 1e-3f) distinct = true;
@@ -1373,7 +1400,7 @@ int main(int argc, char** argv) {
                                 return false;
                             };
                             bool missing = false;                    // a realisable feature of the plain tree is missing
-                            for (auto& x : fe) if (!in_set(x, fo) && realisable(x)) missing = true;
+                            for (auto& x : fe) if (!in_set(x, fo) && !in_set(x, fo_near) && realisable(x)) missing = true;
                             bool mismatch = missing;
                             if (!mismatch) {
                                 // the oracle tree reports more: each extra feature must at least be realisable
@@ -1838,7 +1865,7 @@ int main(int argc, char** argv) {
                 const char* st = r.state() == Interval::EMPTY ? "E" : r.state() == Interval::FILLED ? "F" : "A";
                 out(std::string("IV ") + hex32(r.lower()) + " " + hex32(r.upper()) + " " + (r.isSafe() ? "0" : "1") + " " + st);
                 std::fesetround(FE_TONEAREST);
-                int pts = 0, bad = 0; std::string info;
+                int pts = 0, bad = 0, illcond = 0; std::string info;
                 if (r.isSafe()) {
                     std::mt19937 rng(977);
                     std::uniform_real_distribution<float> d(0.0f, 1.0f);
@@ -1866,13 +1893,25 @@ int main(int argc, char** argv) {
                         if (ar.any_inf()) continue;
                         ++pts;
                         bool viol = std::isnan(v) || v < r.lower() - slack_lo || v > r.upper() + slack_hi;
+                        if (viol && !std::isnan(v) && !exact) {
+                            // conditioning: the interval of the DEGENERATE box [p, p] is the tightest enclosure the same
+                            // operators give at this point; where it is wide (tan next to its pole turns a one-ulp slack of
+                            // the binary32 kernels into 0.1 % of the value) a binary32 point value may miss the box interval
+                            // by a few such widths without any operator being unsound
+                            Interval rp = iv.eval(p, p);
+                            std::fesetround(FE_TONEAREST);
+                            float w = rp.upper() - rp.lower();
+                            if (rp.isSafe() && std::isfinite(w) && v >= r.lower() - slack_lo - 4 * w && v <= r.upper() + slack_hi + 4 * w) {
+                                viol = false; ++illcond;
+                            }
+                        }
                         if (viol) {
                             if (!bad) info = " p=" + hex32(p.x()) + "," + hex32(p.y()) + "," + hex32(p.z()) + " v=" + hex32(v);
                             ++bad;
                         }
                     }
                 }
-                out("IS pts=" + std::to_string(pts) + " bad=" + std::to_string(bad) + info);
+                out("IS pts=" + std::to_string(pts) + " bad=" + std::to_string(bad) + " illcond=" + std::to_string(illcond) + info);
             }
             else out("ERR unknown command " + c);
         } catch (std::exception& e) {
